@@ -451,6 +451,7 @@ impl GroupAggregator {
     pub fn update(&mut self, column_value: Value) -> ExecutionResult<Option<Value>> {
         match self {
             GroupAggregator::Sum(sum) => {
+                ensure_sum_fits(sum, &column_value)?;
                 sum.modify_same_type_numeric_nullable(
                     &column_value,
                     |x, y| { *x += y },
@@ -462,13 +463,14 @@ impl GroupAggregator {
                 Ok(Some(sum))
             }
             GroupAggregator::Average { sum, count } => {
+                ensure_sum_fits(sum, &column_value)?;
                 sum.modify_same_type_numeric_nullable(
                     &column_value,
                     |x, y| { *x += y },
                     |x, y| { *x += y },
                     |x, y| { *x = x.add(y) }
                 );
-                *count += 1;
+                *count = count.checked_add(1).ok_or(ExecutionError::NumericOverflow)?;
 
                 let average = sum.map_numeric(
                     |x| Some(x / *count),
@@ -480,16 +482,22 @@ impl GroupAggregator {
             }
             GroupAggregator::StandardDeviation { sum, sum_square, count, is_variance } => {
                 let squared_column_value = column_value.map_numeric(
-                    |x| Some(x * x),
+                    |x| x.checked_mul(x),
                     |x| Some(x * x),
                     |x| {
                         if let Some(microseconds) = x.num_microseconds() {
-                            Some(IntervalType::microseconds(microseconds * microseconds))
+                            microseconds.checked_mul(microseconds).map(|squared| IntervalType::microseconds(squared))
                         } else {
-                            Some(IntervalType::milliseconds(x.num_milliseconds() * x.num_milliseconds()))
+                            x.num_milliseconds().checked_mul(x.num_milliseconds()).map(|squared| IntervalType::milliseconds(squared))
                         }
                     }
-                ).unwrap_or(Value::Null);
+                ).ok_or(match column_value {
+                    Value::Int(_) | Value::Interval(_) => ExecutionError::NumericOverflow,
+                    _ => ExecutionError::ExpectedNumericValue
+                })?;
+
+                ensure_sum_fits(sum, &column_value)?;
+                ensure_sum_fits(sum_square, &squared_column_value)?;
 
                 sum.modify_same_type_numeric_nullable(
                     &column_value,
@@ -505,7 +513,7 @@ impl GroupAggregator {
                     |x, y| { *x = x.add(y) }
                 );
 
-                *count += 1;
+                *count = count.checked_add(1).ok_or(ExecutionError::NumericOverflow)?;
 
                 let calculate = |sum: f64, sum_square: f64, n: f64| {
                     let variance = (sum_square - (sum * sum) / n) / n;
@@ -592,6 +600,17 @@ impl GroupAggregator {
             GroupAggregator::CountDistinct(_) => false
         }
     }
+}
+
+/// A running INT sum must not overflow silently (or panic): adding `value` to `sum` has to fit
+fn ensure_sum_fits(sum: &Value, value: &Value) -> ExecutionResult<()> {
+    if let (Value::Int(sum), Value::Int(value)) = (sum, value) {
+        if sum.checked_add(*value).is_none() {
+            return Err(ExecutionError::NumericOverflow);
+        }
+    }
+
+    Ok(())
 }
 
 fn extract_having_aggregates<'a>(aggregate_statement: &'a AggregateStatement) -> ExecutionResult<Vec<(usize, &'a Aggregate)>> {
